@@ -294,7 +294,7 @@ EXTRA = {
            'update in the loop); `A[inds] = B` zeroes the addressed blocks unconditionally '
            'before copying; index bounds are inclusive (index == size rejected).',
     'C02': 'Also: a leg that keeps only some rows of the charges (project) inherits `bunched` '
-           'only under a witness, never from the old flag alone.',
+           'only under a witness, never from the old flag alone. Every self.X read in charges.py / np_conserved.py names an attribute bound in the class family (ATTR-defined).',
     'C03': 'Also: helpers that normalise a list argument never hand the caller\'s own list back '
            'into a stored attribute (MPO._get_Id).',
     'C04': 'Also: where both twins sweep an array with counted loops, the swept index regions '
@@ -304,40 +304,40 @@ EXTRA = {
            '(PAIR-skip-transpose).',
     'C05': 'Also: hidden pipes of U and VH are split independently of each other; the number of '
            'inner indices marked per block comes from the factor actually produced, not from '
-           'the input block shape.',
+           'the input block shape. dtype never in an integer slot of np.eye / np.tri / np.diag (FACT-numpy-roles). Generic exact dataflow facts on the anchor files: no result of a call is bound to a local that reaches no read (VALUE-dead, reaching definitions on the CFG).',
     'C06': 'Also: split_legs works on the sorted list of axes; a pipe replaced inside the loop '
-           'over given pipes is written back to the list that is returned.',
+           'over given pipes is written back to the list that is returned. Generic exact dataflow facts on the anchor files: no result of a call is bound to a local that reaches no read (VALUE-dead, reaching definitions on the CFG).',
     'C07': 'Also: a one-site read-modify-write through get_B/set_B is not separated by a write '
            'to another (possibly identical) site; _scale_axis_B applies S**form_diff for every '
-           'value form_diff is compared with (finite case analysis over -1, -1/2, 0, 1/2, 1).',
+           'value form_diff is compared with (finite case analysis over -1, -1/2, 0, 1/2, 1). dtypes of operators over a list of tensors (TransferMatrix) are promoted over all elements; stored tensors that enlarge_mps_unit_cell shares between sites are re-bound, not updated in place. Generic exact dataflow facts on the anchor files: no result of a call is bound to a local that reaches no read (VALUE-dead, reaching definitions on the CFG); every self.X read names an attribute bound in the class family (ATTR-defined).',
     'C09': 'Also: tensors fed into a state built with form=None come from get_B(form=None) on '
            'every site (bond coverage); spatial_inversion reverses the list of forms as well as '
-           'swapping each pair.',
+           'swapping each pair. permute_sites moves site i to perm[i] (read off its sorting loop): the docstring states that map and callers that gather a companion list with a permutation pass its inverse.',
     'C10': 'Also: on-site weights when merging MPO on-site terms into bonds (1 at a finite '
            'boundary, 1/2 elsewhere) in both implementations; the basis permutation that undoes '
            'charge sorting is the inverse permutation; bond_energies uses the same bond '
            'convention as H_bond; the fermionic reordering sign travels with the term into the '
-           'hermitian-conjugate call.',
+           'hermitian-conjugate call. Generic exact dataflow facts on the anchor files: no result of a call is bound to a local that reaches no read (VALUE-dead, reaching definitions on the CFG); every self.X read names an attribute bound in the class family (ATTR-defined).',
     'C11': 'Also: MPO.plus_identity: the exponents of beta**(1/N) collected along every path '
            'through the blocks (start C, middle A, end B, on-site D) add up to N as exact '
            'polynomial identities in the positions of the term relative to the chosen sites, '
-           'and the two identity chains carry beta exactly once (WEIGHT-path).',
+           'and the two identity chains carry beta exactly once (WEIGHT-path). Generic exact dataflow facts on the anchor files: no result of a call is bound to a local that reaches no read (VALUE-dead, reaching definitions on the CFG); every self.X read names an attribute bound in the class family (ATTR-defined).',
     'C12': 'Also: change_charge does not update the (possibly shared) state_labels dict in '
-           'place.',
+           'place. Generic exact dataflow facts on the anchor files: no result of a call is bound to a local that reaches no read (VALUE-dead, reaching definitions on the CFG); every self.X read names an attribute bound in the class family (ATTR-defined).',
     'C13': 'Also: IdL / IdR / bond dimension used on one per-bond array in the mixers belong to '
            'the same MPO bond (index polynomials; get_IdL(i) = bond i, get_IdR(i) and the wR leg '
            'of W_i = bond i+1); adjoint() of OneSiteH / TwoSiteH conjugates every tensor that '
-           'matvec / to_matrix contract, in the combined configuration too.',
+           'matvec / to_matrix contract, in the combined configuration too. Generic exact dataflow facts on the anchor files: no result of a call is bound to a local that reaches no read (VALUE-dead, reaching definitions on the CFG); every self.X read names an attribute bound in the class family (ATTR-defined).',
     'C14': 'Also: stepping methods outside the run path (TEBDEngine.update_imag) advance '
-           'evolved_time by N_steps times the same step as update().',
+           'evolved_time by N_steps times the same step as update(). Generic exact dataflow facts on the anchor files: no result of a call is bound to a local that reaches no read (VALUE-dead, reaching definitions on the CFG); every self.X read names an attribute bound in the class family (ATTR-defined).',
     'C15': 'Also: dimensional analysis of svd_theta / eigh_rho (degree under rescaling of the '
            'input, power of the kept norm, spectrum power): truncate() receives a normalised '
            'spectrum of singular values and the returned S / renormalization / W have the '
            'documented degrees; the degeneracy mask always allows cut 0; no tensor method that '
-           'returns a new tensor is called for effect in truncation.py (TRUNC-value-dropped).',
+           'returns a new tensor is called for effect in truncation.py (TRUNC-value-dropped). Generic exact dataflow facts on the anchor files: no result of a call is bound to a local that reaches no read (VALUE-dead, reaching definitions on the CFG).',
     'C16': 'Also: GMRES.reset() prepares the per-cycle state by the same expressions as '
            '__init__ (rs[0] read as rs[-1]) and the first Krylov vector is the residual divided '
-           'by its own norm, e1 scaled with that norm.',
+           'by its own norm, e1 scaled with that norm. Generic exact dataflow facts on the anchor files: no result of a call is bound to a local that reaches no read (VALUE-dead, reaching definitions on the CFG); every self.X read names an attribute bound in the class family (ATTR-defined).',
     'C17': 'Also: a from_hdf5 that rebuilds through cls(..) passes every loaded value to the '
            'constructor parameter that determines the attribute saved under that key (data / '
            'control dependence through __init__ and helpers); the own object is memorized before '
@@ -345,17 +345,17 @@ EXTRA = {
            'reads only assigned attributes (property setters and __setstate__ modelled); the '
            'compact masked-array format is chosen under a universally quantified condition; the '
            'simple-key predicate for dicts rejects \'\', \'.\', keys with \'/\' and non-strings '
-           '(constant folding on witnesses).',
+           '(constant folding on witnesses). Generic exact dataflow facts on the anchor files: no result of a call is bound to a local that reaches no read (VALUE-dead, reaching definitions on the CFG); every self.X read names an attribute bound in the class family (ATTR-defined).',
     'C18': 'Also: in-place preparations of psi in init_state sit under `not hasattr(self, '
            '"psi")`; overrides receiving resume_data (named or through **kwargs of '
            'constructors) forward it to the base implementation; resume_from_checkpoint does '
            'not pass `sequential` twice to run_seq_simulations nor the output_filename generated '
-           'for the resumed simulation.',
+           'for the resumed simulation. Generic exact dataflow facts on the anchor files: no result of a call is bound to a local that reaches no read (VALUE-dead, reaching definitions on the CFG); every self.X read names an attribute bound in the class family (ATTR-defined).',
     'C19': 'Also: every floor division in mps2lat_idx / lat2mps_idx is exact by a '
            'multiple-of fact (difference to the own residue); a field from which a recompute '
            'method derives N_cells / N_sites is only changed on paths that run that method '
-           'afterwards (CFG must-follow).',
+           'afterwards (CFG must-follow). Generic exact dataflow facts on the anchor files: no result of a call is bound to a local that reaches no read (VALUE-dead, reaching definitions on the CFG); every self.X read names an attribute bound in the class family (ATTR-defined).',
     'C20': 'Also: the result of a task is stored before task_done() on every path; keys leave '
            '_waiting_for_load only after their load task finished (join / worker exit / assert '
-           'key in _loaded dominates).',
+           'key in _loaded dominates). Generic exact dataflow facts on the anchor files: no result of a call is bound to a local that reaches no read (VALUE-dead, reaching definitions on the CFG); every self.X read names an attribute bound in the class family (ATTR-defined).',
 }
